@@ -29,7 +29,7 @@ func init() {
 				"reported as information.",
 			NotCovered: "that (*dns.Msg).Unpack is a function of its argument only (trusted); semantics of the " +
 				"third-party DNSCrypt and HTTP libraries' own buffers.",
-			Rules: map[string]string{"C06-RC": "class rules (error chains, shadowed results, character classes, crossed arguments, pool constructors, array pools, loop completeness, loop-carried buffers, replacing setters, complete clones, Grow arithmetic, pooled-buffer escape, sorted searches, fresh decode targets, per-iteration objects, whole-message copies, codec guards) over the packages this property rests on", "C06-R7": "deep-copy discipline of the record constructors and the cloner (shared with C07-R5)", "C06-R6": "pooled per-request objects (filtering context, request info) are fully re-initialised when taken from the pool", "C06-R5": "a response goes back to the message pools only from writers after which nothing reads it (dispose gates, shared with C07-R3)",
+			Rules: map[string]string{"C06-R8": "cached answers are re-initialised from the current request (shared with C12-R11)", "C06-RC": "class rules (error chains, shadowed results, character classes, crossed arguments, pool constructors, array pools, loop completeness, loop-carried buffers, replacing setters, complete clones, Grow arithmetic, pooled-buffer escape, sorted searches, fresh decode targets, per-iteration objects, whole-message copies, codec guards) over the packages this property rests on", "C06-R7": "deep-copy discipline of the record constructors and the cloner (shared with C07-R5)", "C06-R6": "pooled per-request objects (filtering context, request info) are fully re-initialised when taken from the pool", "C06-R5": "a response goes back to the message pools only from writers after which nothing reads it (dispose gates, shared with C07-R3)",
 				"C06-R1": "length provenance of every (*dns.Msg).Unpack argument: Bounded | FullyRead | Fresh on all paths",
 				"C06-R3": "buffer-pool wiring: a pool field of a reader / writer is set from the server's pool field of the same name (request buffers and response buffers never share a pool)",
 				"C06-R2": "no use of a pooled receive buffer after Pool.Put on any path; Put after hand-over to a worker only inside the worker",
@@ -605,6 +605,9 @@ func runC06(c *an.Ctx) {
 	// later constructed answer overwrites in place; shared with C07-R5)
 	c.Floor("C06-R7", 10)
 	c07Cloner(c, "C06-R7")
+	// ---- R8: an answer served from a cache gets ID and question of the request it answers
+	c.Floor("C06-R8", 1)
+	sharedReplyInit(c, "C06-R8")
 	// ---- R5: a response is handed back to the message pools only by the writers after which nothing reads it
 	// (a message recycled while a DoH/DoQ/DNSCrypt writer still packs it is another client's answer); shared with C07-R3
 	c.Floor("C06-R5", 2)
